@@ -481,3 +481,81 @@ func RandomLayout(r *simrt.Rand, o GenOpts) Layout {
 	}
 	return l
 }
+
+// RawDict decodes the top-level dictionary of b and returns the raw encoded bytes of each
+// value (so that e.g. the info dictionary can be hashed exactly as it was transmitted).
+func RawDict(b []byte) (map[string][]byte, error) {
+	if len(b) == 0 || b[0] != 'd' {
+		return nil, fmt.Errorf("bencode: not a dictionary")
+	}
+	out := map[string][]byte{}
+	i := 1
+	for {
+		if i >= len(b) {
+			return nil, fmt.Errorf("bencode: unterminated dict")
+		}
+		if b[i] == 'e' {
+			return out, nil
+		}
+		k, n, err := bdecLoose(b, i, 0)
+		if err != nil {
+			return nil, err
+		}
+		ks, ok := k.(string)
+		if !ok {
+			return nil, fmt.Errorf("bencode: non-string key")
+		}
+		_, n2, err := bdecLoose(b, n, 0)
+		if err != nil {
+			return nil, err
+		}
+		out[ks] = b[n:n2]
+		i = n2
+	}
+}
+
+// bdecLoose is bdec without the sorted-keys requirement (third-party encoders differ).
+func bdecLoose(b []byte, i, depth int) (any, int, error) {
+	if depth > 64 || i >= len(b) {
+		return nil, i, fmt.Errorf("bencode: bad input")
+	}
+	switch c := b[i]; {
+	case c == 'i' || (c >= '0' && c <= '9'):
+		return bdec(b, i, depth)
+	case c == 'l':
+		i++
+		for {
+			if i >= len(b) {
+				return nil, i, fmt.Errorf("bencode: unterminated list")
+			}
+			if b[i] == 'e' {
+				return nil, i + 1, nil
+			}
+			_, n, err := bdecLoose(b, i, depth+1)
+			if err != nil {
+				return nil, n, err
+			}
+			i = n
+		}
+	case c == 'd':
+		i++
+		for {
+			if i >= len(b) {
+				return nil, i, fmt.Errorf("bencode: unterminated dict")
+			}
+			if b[i] == 'e' {
+				return nil, i + 1, nil
+			}
+			_, n, err := bdecLoose(b, i, depth+1)
+			if err != nil {
+				return nil, n, err
+			}
+			_, n2, err := bdecLoose(b, n, depth+1)
+			if err != nil {
+				return nil, n2, err
+			}
+			i = n2
+		}
+	}
+	return nil, i, fmt.Errorf("bencode: unexpected byte %q", b[i])
+}
